@@ -113,7 +113,7 @@ theorem listWF_processHeader (r : Repo) (h : Hdr) (ok : Bool) (hl : ListWF r.are
     ListWF (processHeader r h ok).1.arena (processHeader r h ok).1.branches := by
   cases processHeader_shape r h ok hnc with
   | same ha hb _ => rw [ha, hb]; exact hl
-  | fork pb ph lst nb hp hn ha hb _ =>
+  | fork pb ph lst nb hp hne hn ha hb _ =>
     rw [ha, hb]
     constructor
     · rw [List.pairwise_append]
@@ -193,7 +193,7 @@ theorem heightsSound_processHeader (r : Repo) (h : Hdr) (ok : Bool) (hr : RepoWF
     HeightsSound (processHeader r h ok).1 := by
   cases processHeader_shape r h ok hnc with
   | same ha hb hh => intro id x hg; rw [hh] at hg; rw [ha]; exact hr.heights id x hg
-  | fork pb ph lst nb hp hn ha hb hh =>
+  | fork pb ph lst nb hp hne hn ha hb hh =>
     intro id x hg
     rw [hh, HMap.get?_set] at hg
     rw [ha]
